@@ -142,8 +142,15 @@ def _worker_run(job):
     env = _G["env"]
     t0 = time.time()
     try:
+        from ..cliworld import kernel as _k
+        if os.environ.get("VERIF_DIGEST"):
+            _k.DIGEST["h"] = hashlib.sha256()
         case = check.gen_case(rngmod.Rng(case_seed), params, index)
+        if _k.DIGEST["h"] is not None:
+            _k.DIGEST["h"].update(json.dumps(case, sort_keys=True).encode())
         res = check.run_case(case, env)
+        if _k.DIGEST["h"] is not None:
+            res["digest"] = _k.DIGEST["h"].hexdigest()
         res["index"] = index
         res["case_seed"] = case_seed
         res["wall"] = time.time() - t0
@@ -284,6 +291,9 @@ def run_check(check, tier, seed, repo=DEFAULT_REPO, workers=None, write_evidence
     finally:
         shutil.rmtree(os.path.join(scratch_root(), "vf-%s" % run_tag), ignore_errors=True)
     results.sort(key=lambda r: r["index"])
+    if os.environ.get("VERIF_DIGEST"):
+        with open(os.environ["VERIF_DIGEST"], "w") as f:
+            json.dump({str(r["index"]): r.get("digest") for r in results}, f, indent=0, sort_keys=True)
     if truncated:
         # keep only the contiguous prefix, so that the verdict does not depend on completion order
         done = set(r["index"] for r in results)
